@@ -16,14 +16,15 @@ import (
 // C09: a failing source yields a prompt (false, error); never a hang, never a pass, nobody left blocked.
 
 type c09Case struct {
-	Workflow string `json:"workflow"` // factory | poweron | period | single
-	Fast     bool   `json:"fast,omitempty"`
-	NumByte  int    `json:"num_byte,omitempty"` // single
-	Offset   int    `json:"offset"`
-	Kind     string `json:"kind"`
-	Seed     uint64 `json:"seed"`
-	Delays   []int  `json:"delays,omitempty"`
-	Procs    int    `json:"gomaxprocs,omitempty"`
+	Workflow   string `json:"workflow"` // factory | poweron | period | single
+	Fast       bool   `json:"fast,omitempty"`
+	NumByte    int    `json:"num_byte,omitempty"` // single
+	Offset     int    `json:"offset"`
+	Kind       string `json:"kind"`
+	Seed       uint64 `json:"seed"`
+	Delays     []int  `json:"delays,omitempty"`
+	Procs      int    `json:"gomaxprocs,omitempty"`
+	SlowFailMs int    `json:"slow_fail_ms,omitempty"` // the Read that reports the failure takes this long to return
 }
 
 func (c c09Case) required() (total, sample int) {
@@ -69,6 +70,10 @@ func checkC09(c c09Case) (Outcome, error) {
 	}
 	r := gen.NewReader(data)
 	r.Fault, r.Kind, r.Delays = c.Offset, c.Kind, c.Delays
+	r.FaultDelay = time.Duration(c.SlowFailMs) * time.Millisecond
+	if c.SlowFailMs > 0 {
+		out.Classes = append(out.Classes, "slow-failing-read")
+	}
 	if c.Procs > 0 {
 		old := runtime.GOMAXPROCS(c.Procs)
 		defer runtime.GOMAXPROCS(old)
@@ -85,7 +90,7 @@ func checkC09(c c09Case) (Outcome, error) {
 		}
 	}
 	// generous wall-clock guard (only ever "inconclusive"): 20x a fault-free run
-	limit := 60 * time.Second
+	limit := 60*time.Second + 3*time.Duration(c.SlowFailMs)*time.Millisecond
 	if sample > 2500 {
 		limit = 40 * time.Minute
 	}
@@ -228,6 +233,19 @@ func TestC09Enum(t *testing.T) {
 				}
 			}
 		}
+	}
+	enumerate(t, "C09", cases, checkC09)
+}
+
+// TestC09SlowFail: the Read that reports the failure hangs for 35 s before it returns (a device that times out); the workflow
+// must still end with (false, error) and leave nobody behind once that Read has returned. Deterministic.
+func TestC09SlowFail(t *testing.T) {
+	cases := []c09Case{{Workflow: "period", Fast: true, Offset: 2501, Kind: gen.FaultCustom, Seed: 5, SlowFailMs: 35000},
+		{Workflow: "single", NumByte: 64, Offset: 10, Kind: gen.FaultOSError, Seed: 6, SlowFailMs: 35000}}
+	if thorough() {
+		cases = append(cases, c09Case{Workflow: "period", Offset: 1, Kind: gen.FaultUnexpected, Seed: 7, SlowFailMs: 35000},
+			c09Case{Workflow: "poweron", Fast: true, Offset: 1, Kind: gen.FaultCustom, Seed: 8, SlowFailMs: 35000},
+			c09Case{Workflow: "factory", Offset: 1, Kind: gen.FaultOSError, Seed: 9, SlowFailMs: 35000})
 	}
 	enumerate(t, "C09", cases, checkC09)
 }
